@@ -430,7 +430,8 @@ func serve(env *kernel.Env, s *scn, ctx *middleware.Context, handler http.Handle
 			if p := middleware.SecurityPrincipalFrom(r); p != princ {
 				env.Violate("C02/principal-mismatch", "context-vs-return", "Authorize returned %v, the request context carries %v", princ, p)
 			}
-			o.scopes = middleware.SecurityScopesFrom(r)
+			o.scopes = append([]string(nil), middleware.SecurityScopesFrom(r)...)
+			sort.Strings(o.scopes) // their order comes from a map iteration inside the analysis dependency
 			if mr := middleware.MatchedRouteFrom(r); mr != nil && mr.Authenticator != nil {
 				o.admitting = append([]string(nil), mr.Authenticator.Schemes...)
 			}
